@@ -235,12 +235,19 @@ class TimeLimitExceededError(Exception):
     pass
 
 
+def _new_tid_generator():
+    # Clients remember task ids in their tracked-jobs file, also across
+    # restarts of the pool. Start each pool at a fresh offset so that a new
+    # pool never hands out an id that an earlier pool has used.
+    return itertools.count(time.time_ns() // 1000)
+
+
 @attrs.define
 class Scheduler:
     working_dir: Path = attrs.field(converter=Path)
     max_cores: int = attrs.field(default=multiprocessing.cpu_count())
 
-    tid_generator: Generator = attrs.field(factory=itertools.count)
+    tid_generator: Generator = attrs.field(factory=_new_tid_generator)
     events: asyncio.Queue = attrs.field(factory=asyncio.Queue)
     task_states: dict = attrs.field(factory=dict)
     tasks: dict = attrs.field(factory=dict)
